@@ -1,4 +1,4 @@
 SPECIFICATION Spec
-CONSTANTS LossPerHit = 4  ChargeFree = TRUE  OpenFace = "none"  Transits = 1
+CONSTANTS LossPerHit = 4  ChargeFree = TRUE  OpenFace = "none"  Transits = 1  StretchApplied = TRUE
 INVARIANT QuietAbsorbed
 CHECK_DEADLOCK FALSE
